@@ -149,4 +149,12 @@ def convolveFinish (r : Rat → Rat) (preserveAlpha : Bool) (divisor bias : Rat)
     toU8 (r (r (x * 255) + 1 / 2))
   { r := chan sumR, g := chan sumG, b := chan sumB, a := toU8 (r (r (bA * 255) + 1 / 2)) }
 
+/-- lighting.rs `calc_specular_alpha` / `calc_diffuse_alpha`: the alpha of a lighting result pixel -/
+def specularAlpha (r g b : Nat) : Nat := max (max r g) b
+def diffuseAlpha (_r _g _b : Nat) : Nat := 255
+
+/-- the result pixel the lighting kernels store for computed colour channels `r g b` -/
+def lightingPixel (specular : Bool) (r g b : Nat) : Px :=
+  { r := r, g := g, b := b, a := if specular then specularAlpha r g b else diffuseAlpha r g b }
+
 end Resvg.Pixel
